@@ -26,6 +26,7 @@ import (
 	"net"
 	"os"
 	"strconv"
+	"sync"
 	"time"
 )
 
@@ -72,6 +73,11 @@ type response struct {
 	req           *bfe_http.Request // request for this response
 	wroteHeader   bool              // reply header has been (logically) written
 	wroteContinue bool              // 100 Continue response was written
+
+	// continueMu guards wroteContinue and continueForbidden, and is held while
+	// "100 Continue" is written by the goroutine reading the request body.
+	continueMu        sync.Mutex
+	continueForbidden bool // final response header started: no interim response any more
 
 	w  *bfe_bufio.Writer // buffers output in chunks to chunkWriter
 	cw chunkWriter
